@@ -85,6 +85,46 @@ def tightness(pid=None, workers=4):
     return out, results
 
 
+def run_seed(sdir, known_oids):
+    """apply seeded/<id>/patch.diff to a scratch copy of the sources (never to /repo) and report which properties alarm"""
+    meta = json.load(open(os.path.join(sdir, 'meta.json')))
+    wd = tempfile.mkdtemp(prefix='xcpverif-seed-')
+    try:
+        copy_sources(wd)
+        p = subprocess.run(['patch', '-p1', '-s', '-i', os.path.join(sdir, 'patch.diff')], cwd=wd, stdout=subprocess.PIPE, stderr=subprocess.STDOUT, text=True)
+        if p.returncode != 0:
+            return {'seed': os.path.basename(sdir), 'status': 'stale', 'detail': p.stdout[-200:]}
+        try:
+            G = driver.assemble(repo=wd)
+        except (AnchorLost, SpecError) as e:
+            return {'seed': os.path.basename(sdir), 'status': 'undecided', 'detail': str(e)[:200], 'expected': meta.get('detected_by')}
+        res = driver.run_verus(G, wd, threads=4)
+        failed, tool, _ = driver.classify(G, res)
+        if tool:
+            return {'seed': os.path.basename(sdir), 'status': 'undecided', 'detail': tool[0][:200], 'expected': meta.get('detected_by')}
+        fo = [o for o in failed if o not in known_oids]
+        props = sorted({t for o in fo for t in G.obligations[o]['tags']})
+        return {'seed': os.path.basename(sdir), 'status': 'alarm' if fo else 'silent', 'props': props, 'expected': meta.get('detected_by'), 'target': meta.get('property')}
+    finally:
+        shutil.rmtree(wd, ignore_errors=True)
+
+
+def seeds(pid=None, workers=3):
+    """regression over the kept seeded changes (Verus part only; the bounded C09 seeds are exercised by the bounded check itself)"""
+    from .checks import load_known
+    known = {k['obligation_id'] for k in load_known() if k.get('status') == 'open' and 'obligation_id' in k}
+    root = os.path.join(VERIF, 'seeded')
+    dirs = []
+    for d in sorted(os.listdir(root)):
+        mp = os.path.join(root, d, 'meta.json')
+        if os.path.exists(mp):
+            m = json.load(open(mp))
+            if pid is None or m.get('property') == pid or pid in m.get('detected_by', []):
+                dirs.append(os.path.join(root, d))
+    with ThreadPoolExecutor(max_workers=workers) as ex:
+        return list(ex.map(lambda d: run_seed(d, known), dirs))
+
+
 # ---------------------------------------------------------------------------------------------------------------
 CONF_MAIN = r'''
 // conformance build: the constants the prelude copies and the call shapes its stand-ins mirror, checked by rustc
